@@ -166,7 +166,7 @@ func startEnv() (*scriptedTransport, *dnsScript, func()) {
 // ---- resolution workload ----
 
 var wkOutcomes = []string{"absent", "404", "500", "203", "oversized-with-length", "oversized-no-length", "malformed", "no-m.server", "empty-m.server", "to-name", "to-name-port", "to-ipv4", "to-ipv4-port", "to-ipv6", "to-ipv6-port", "to-invalid", "wrong-type"}
-var srvOutcomes = []string{"none", "fed", "legacy", "both", "three", "same-target-two-ports", "same-record-twice", "trailing-dot", "fed-servfail", "legacy-servfail"}
+var srvOutcomes = []string{"none", "fed", "legacy", "both", "three", "same-target-two-ports", "same-record-twice", "trailing-dot", "root-target", "fed-servfail", "legacy-servfail"}
 
 func mkSRV(target string, port uint16) dns.SRV {
 	return dns.SRV{Target: dns.Fqdn(target), Port: port, Priority: 10, Weight: 5}
@@ -203,6 +203,9 @@ func srvFor(outcome, name string) (srvScript, ref.SRVAnswer) {
 		}
 	case "trailing-dot":
 		sc.fed, ans.Fed = fed, []ref.SRVRecord{{Target: "fed." + name, Port: 8443}}
+	case "root-target":
+		// a record whose target is the root "." says the service is not offered: it names no host to connect to
+		sc.fed = []dns.SRV{{Target: ".", Port: 8445, Priority: 0, Weight: 0}}
 	case "fed-servfail":
 		sc.fedFail, ans.FedError = true, true
 		sc.legacy, ans.Legacy = leg, []ref.SRVRecord{{Target: "legacy." + name, Port: 8444}}
@@ -390,6 +393,8 @@ func c16WellKnown(c *mon.Ctx, st *scriptedTransport) {
 		"two-cache-control-lines":          {{"Cache-Control", "public"}, {"Cache-Control", "max-age=100"}, {"Expires", expS}},
 		"two-cache-control-lines-reversed": {{"Cache-Control", "max-age=100"}, {"Cache-Control", "public"}, {"Expires", expS}},
 		"tab-after-comma":                  {{"Cache-Control", "public,\tmax-age=100"}, {"Expires", expS}},
+		"max-age-max-int64":                {{"Cache-Control", "max-age=9223372036854775807"}, {"Expires", "Mon, 02 Jan 2006 15:04:05 GMT"}},
+		"max-age-beyond-int64":             {{"Cache-Control", "max-age=99999999999999999999"}, {"Expires", "Mon, 02 Jan 2006 15:04:05 GMT"}},
 		"body-names-an-expiry":             {{"Cache-Control", "max-age=100"}},
 		"body-names-an-expiry-lower-case":  {{"Cache-Control", "max-age=100"}},
 	}
@@ -442,6 +447,9 @@ func c16WellKnown(c *mon.Ctx, st *scriptedTransport) {
 				ok = in(before+600, after+600)
 			case "two-cache-control-lines", "two-cache-control-lines-reversed", "tab-after-comma", "body-names-an-expiry", "body-names-an-expiry-lower-case":
 				ok = in(before+100, after+100)
+			case "max-age-max-int64", "max-age-beyond-int64":
+				// max-age is there, so it wins over the (past) Expires; however it is represented, it is far in the future
+				ok = res.CacheExpiresAt > after+1000000000
 			}
 			if !ok {
 				c.Failf("wellknown:cache-lifetime:"+name, "CacheExpiresAt = %d (now %d) for headers %v", res.CacheExpiresAt, after, hdrs)
@@ -704,20 +712,31 @@ func c16WellKnownUnderPolicy(c *mon.Ctx, st *scriptedTransport, ds *dnsScript) {
 			st.wk[name] = wkReply{status: 200, body: []byte(`{"m.server":"127.0.0.1:1"}`), contentLength: true, headers: map[string]string{}}
 			st.calls = nil
 			st.mu.Unlock()
-			cl := fclient.NewClient(fclient.WithAllowDenyNetworks(allow, deny), fclient.WithSkipVerify(true), fclient.WithWellKnownSRVLookups(true), fclient.WithTimeout(3*time.Second))
-			ctx, cancel := context.WithTimeout(context.Background(), 3*time.Second)
-			defer cancel()
-			_, _ = cl.GetServerKeys(ctx, spec.ServerName(name))
-			st.mu.Lock()
-			calls := append([]string{}, st.calls...)
-			delete(st.wk, name)
-			st.mu.Unlock()
-			c.Count("well_known_lookups_under_policy")
-			for _, call := range calls {
-				if strings.HasPrefix(call, name) {
-					c.Failf("policy:well-known-lookup-not-subject-to-lists", "with allow=%v deny=%v the client fetched https://%s through the default transport, i.e. connected to %s (127.0.0.1, forbidden by the lists) without consulting them", allow, deny, call, name)
+			for _, where := range []string{"client", "dns-cache"} {
+				st.mu.Lock()
+				st.calls = nil
+				st.mu.Unlock()
+				cl := fclient.NewClient(fclient.WithAllowDenyNetworks(allow, deny), fclient.WithSkipVerify(true), fclient.WithWellKnownSRVLookups(true), fclient.WithTimeout(3*time.Second))
+				if where == "dns-cache" {
+					// the lists are configured on the DNS cache the client dials through, the client has none of its own
+					cl = fclient.NewClient(fclient.WithDNSCache(fclient.NewDNSCache(8, time.Minute, allow, deny)), fclient.WithSkipVerify(true), fclient.WithWellKnownSRVLookups(true), fclient.WithTimeout(3*time.Second))
+				}
+				ctx, cancel := context.WithTimeout(context.Background(), 3*time.Second)
+				_, _ = cl.GetServerKeys(ctx, spec.ServerName(name))
+				cancel()
+				st.mu.Lock()
+				calls := append([]string{}, st.calls...)
+				st.mu.Unlock()
+				c.Count("well_known_lookups_under_policy")
+				for _, call := range calls {
+					if strings.HasPrefix(call, name) {
+						c.Failf("policy:well-known-lookup-not-subject-to-lists:"+where, "with allow=%v deny=%v configured on the %s the client fetched https://%s through the default transport, i.e. connected to %s (127.0.0.1, forbidden by the lists) without consulting them", allow, deny, where, call, name)
+					}
 				}
 			}
+			st.mu.Lock()
+			delete(st.wk, name)
+			st.mu.Unlock()
 		})
 	}
 }
